@@ -2,6 +2,8 @@
 from contracts import nsf as N
 from contracts import formulas as F
 
+from contracts import formulas as F_DEP
+from contracts import core as K_DEP
 ID = "C17"
 LEVEL = "other"
 TRUSTED = [
@@ -18,12 +20,13 @@ EXPLANATION = ("Deductive: _sum_piece's loop is proved equal to the four documen
 
 
 def units(tier):
-    return (([N.U_SUM_PIECE, N.U_COMPUTE_1, N.U_COMPUTE_2, N.U_COMPUTE_3, F.L_SUM_HOMOGENEOUS, N.L_SUM_POSITIVE]) + N.U_COMPOSITE_OUTER) + F.U_FORMULA_OF_FORMULA + F.U_INIT + [N.U_NS_WAVELENGTH, N.U_NS_DEFAULT]
+    return (([N.U_SUM_PIECE, N.U_COMPUTE_1, N.U_COMPUTE_2, N.U_COMPUTE_3, F.L_SUM_HOMOGENEOUS, N.L_SUM_POSITIVE]) + N.U_COMPOSITE_OUTER) + F.U_FORMULA_OF_FORMULA + F.U_INIT + [N.U_NS_WAVELENGTH, N.U_NS_DEFAULT] + ([K_DEP.L_ATOM_IDENTITY] + [F_DEP.U_COUNT_ATOMS, F_DEP.U_ATOMS]) + ([F_DEP.U_RMUL, F_DEP.U_IADD])
 
 
 def runner_tasks(tier):
     return [{"module": "c17", "task": "sample", "kind": "bounded", "clause": "calculator vs direct neutron_sld and documented equations"},
-            {"module": "stateful", "task": "C17", "name": "stateful", "kind": "bounded", "clause": "tiny non-zero weights / densities are not the zero case; repeated objects; typed wavelength vectors; weight vector refilled in place between calls"}]
+            {"module": "stateful", "task": "C17", "name": "stateful", "kind": "bounded", "clause": "tiny non-zero weights / densities are not the zero case; repeated objects; typed wavelength vectors; weight vector refilled in place between calls"},
+            {"module": "independence", "task": "observations", "name": "independence", "kind": "bounded", "arg": {"tags": ["C17"]}, "clause": "fixed observations give the same value as the first use of the library in a fresh interpreter, in a warmed-up interpreter (twice) and in reverse order, and have their documented value", "timeout": 900}]
 
 
 REPLAY = {'module': 'c17', 'task': 'replay'}
